@@ -2,8 +2,10 @@ HEADER = """C12 — Serialisation round-trips to an identical graph.
    Model: coq/model/Serde.v: `decompose h g order` is graph_serde_decompose (members in the container's observed order; per
    member the edges it lists first: outgoing (directed) / the half-edges it created (undirected, after the D13 repair));
    `rebuild` is the Deserialize visitor. The wire codecs (serde_json, serde_cbor) are outside the model: documents are the
-   (nodes, edges) lists. Hypotheses: Inv h, GraphOK, Closed (every neighbour of a member is a member — otherwise the
-   document names an undeclared key and rebuild returns an error, which is C13), any iteration order."""
+   (nodes, edges) lists. Hypotheses: Inv h, GraphOK, any iteration order, and closure of the container under the edges it writes: directed —
+   ClosedOut, every OUT-neighbour of a member is a member (incoming edges from non-members are not part of what the property
+   compares and do not matter); undirected — Closed, both half-lists. Without closure the document names an undeclared key and
+   rebuild returns an error (C13), or an incident edge has no second endpoint to return to: the known finding of C12."""
 REQUIRES = ["From Gdsl.Model Require Import Spec Serde.", "From Gdsl.Proofs Require Import SerdeProof."]
 PINS = [
  ("c12_roundtrip_directed", "roundtrip_directed", "directed: same keys, same node values, and for every node the same outgoing edges (target key, value) in the same order; the result satisfies the mirror invariant"),
